@@ -34,7 +34,9 @@ type mutant struct {
 func main() {
 	repo := flag.String("repo", "/repo", "")
 	out := flag.String("out", "", "")
+	set := flag.Int("set", 1, "operator set: 1 = one-token operators, 2 = statement-level operators (drop an if, force a condition, swap neighbours, drop an else)")
 	flag.Parse()
+	prefix := map[int]string{1: "a", 2: "b"}[*set]
 	n := 0
 	for _, rel := range files {
 		path := filepath.Join(*repo, rel)
@@ -56,7 +58,7 @@ func main() {
 				return
 			}
 			n++
-			id := fmt.Sprintf("a%04d", n)
+			id := fmt.Sprintf("%s%04d", prefix, n)
 			m := mutant{id, rel, fn, fset.Position(pos).Line, op, orig, repl}
 			dir := filepath.Join(*out, id)
 			os.MkdirAll(filepath.Join(dir, filepath.Dir(rel)), 0o755)
@@ -80,6 +82,44 @@ func main() {
 					if id, ok := ce.Fun.(*ast.Ident); ok && (id.Name == "verifYield" || id.Name == "verifSpawn") {
 						return false
 					}
+				}
+				if *set == 2 {
+					switch x := nd.(type) {
+					case *ast.IfStmt:
+						if x.Else == nil {
+							emit(fn, x.Pos(), x.End(), "drop-if", "")
+						} else {
+							emit(fn, x.Body.End(), x.End(), "drop-else", "")
+						}
+						if x.Cond != nil {
+							emit(fn, x.Cond.Pos(), x.Cond.End(), "cond-true", "true")
+							emit(fn, x.Cond.Pos(), x.Cond.End(), "cond-false", "false")
+						}
+					case *ast.BlockStmt:
+						for i := 0; i+1 < len(x.List); i++ {
+							a, b := x.List[i], x.List[i+1]
+							simple := func(s ast.Stmt) bool {
+								switch s.(type) {
+								case *ast.ExprStmt, *ast.AssignStmt, *ast.DeferStmt, *ast.IncDecStmt:
+									return true
+								}
+								return false
+							}
+							if simple(a) && simple(b) {
+								sa := string(src[fset.Position(a.Pos()).Offset:fset.Position(a.End()).Offset])
+								sb := string(src[fset.Position(b.Pos()).Offset:fset.Position(b.End()).Offset])
+								between := string(src[fset.Position(a.End()).Offset:fset.Position(b.Pos()).Offset])
+								emit(fn, a.Pos(), b.End(), "swap-stmts", sb+between+sa)
+							}
+						}
+					case *ast.ForStmt:
+						if x.Cond != nil {
+							emit(fn, x.Cond.Pos(), x.Cond.End(), "loop-once", "false")
+						}
+					case *ast.ReturnStmt:
+						// (only bare returns: results would need values)
+					}
+					return true
 				}
 				switch x := nd.(type) {
 				case *ast.ExprStmt:
